@@ -162,6 +162,12 @@ def call_builtin(I, name, args, kwargs, node, frame):
     if name == "len":
         v = args[0]
         if isinstance(v, VStr):
+            t_ = E.simp(v.t)
+            if I.opt("strlen") == "uninterpreted" and not z3.is_string_value(t_):
+                # length of a symbolic string as an uninterpreted non-negative integer (z3's sequence solver cannot build 10^4-character witnesses)
+                n_ = _fn("slen", z3.StringSort(), z3.IntSort())(v.t)
+                run.assume(n_ >= 0)
+                return VInt(n_)
             return VInt(z3.Length(v.t))
         if isinstance(v, VTuple):
             return VInt(len(v.items))
